@@ -345,6 +345,21 @@ def run_program(ctx, rep, case, options, batch):
                 got = default_periods(Model, labels)
                 oracle_range(case, prog, o, n, got, wl, wd, rep)
                 rep.dist['range:' + ('empty' if not got.get('ok') else 'one-period' if len(got['ok']) == 1 else 'nonempty')] += 1
+            # the same settings as NumPy integer scalars (forms HEAD accepts; bool/float are left out: HEAD itself writes
+            # `LAGS = True` / `2.0` for them): same lists, LAGS/LEADS plain ints of the same value
+            if oi % 5 == 0 and any(v is not None for v in o.values()):
+                import numpy as np
+                frng = random.Random(f"form:{case['prog']}:{oi}")
+                fname, conv = frng.choice([('np.int64', np.int64), ('np.int32', np.int32), ('np.intp', np.intp), ('np.uint8', np.uint8),
+                                           ('arange-element', lambda v: np.arange(v + 1)[v])])
+                fkw = {k: (conv(v) if isinstance(v, int) else v) for k, v in kwargs_of(o).items()}
+                fb = pc.impl(fsic.build_model, symbols, **fkw)
+                rep.dist['int-form:' + fname] += 1
+                fattrs = class_attrs(fb['ok']) if 'ok' in fb else fb
+                if fattrs != attrs or ('ok' in fb and (type(fb['ok'].LAGS) is not int or type(fb['ok'].LEADS) is not int)):
+                    rep.violate('int-form', f'lags/leads/min_* given as {fname}: class attributes {fattrs} '
+                                f'(LAGS {type(fb["ok"].LAGS).__name__ if "ok" in fb else "-"}) differ from those for the equal Python ints {attrs}',
+                                info_of(case, opts=o, int_form=fname))
             # instances with a history, every span type (a sample of option sets per program: the first and every 5th)
             if oi % 5 == 0:
                 hrng = random.Random(f"{case['prog']}:{oi}")
